@@ -677,7 +677,7 @@ func callWorker(req N) (resp N) {
 		return res
 	})
 	opts := []risor.Option{risor.WithConcurrency(), risor.WithLocalImporter(modDir), risor.WithGlobals(globals)}
-	if src == "withos" || src == "withoswarm" {
+	if src == "withos" || src == "withoswarm" || src == "withosvm" {
 		opts = append(opts, risor.WithOS(host))
 	}
 	rec.add(event{E: "start", K: src})
@@ -721,6 +721,11 @@ func callWorker(req N) (resp N) {
 				return
 			}
 			err = machine.RunCode(baseCtx, code, cfg.VMOpts()...)
+		} else if src == "withosvm" {
+			// the top-level API: risor.Eval with the options WithOS and WithVM (a VM the host made itself)
+			if machine, err = vm.NewEmpty(); err == nil {
+				_, err = risor.Eval(hostCtx, script, append(append([]risor.Option{}, opts...), risor.WithVM(machine))...)
+			}
 		} else if src == "ctxwarm" {
 			// the VM is used once with no OS at all (no option, plain context) before the host supplies
 			// its OS in the context: run a trivial code object, then the script
